@@ -1,32 +1,133 @@
-/- Bridge (C20): the status constants and tables regenerated from __main__.py (Cel.Gen.CliStatus)
-   against the constants the model's `main` / `processJsonDoc` / `nullInput` are written with. -/
+/- Bridge (C20): the behaviour tables regenerated from __main__.py (Cel.Gen.CliStatus — `process_json_doc` and `main` run in the
+   C20 interpreter on every scenario of the abstract input space: options × class of the evaluation result × malformed JSON ×
+   parse error; trace of observable effects and returned status) against the same tables COMPUTED FROM THE MODEL
+   (`Cel.Cli.processJsonDoc`, `nullInput`, `main`, `varName`, `envPackage`, the `max` step of `ndjsonLoop`).
+   The comparison is on behaviour, not on the shape of the source: early returns vs. else chains, a local status variable,
+   split isinstance tests, reordered `except` clauses, an inverted condition give the same tables. -/
 import Cel.Gen.CliStatus
 import Cel.Model.Cli
 namespace Cel.Bridge
 open Cel Cel.Cli
 
-/-- `except CELParseError: … return 1` -/
-theorem cli_parse_error_status : Gen.Cli.parseError = St.parseError := by decide
-/-- the `--null-input` branch: 0/1 for a boolean under `-b`, 2 for a non-boolean or an evaluation error,
-0 after printing without `-b`; `-b` prints nothing, the plain branch prints the value -/
-theorem cli_null_input_status :
-    Gen.Cli.nullTrue = St.nullTrue ∧ Gen.Cli.nullFalse = St.nullFalse ∧ Gen.Cli.nullNonBool = St.nullNonBool ∧
-    Gen.Cli.nullPlain = St.nullPlain ∧ Gen.Cli.nullEvalError = St.nullEvalError ∧
-    Gen.Cli.nullPlainDisplays = true ∧ Gen.Cli.nullBooleanDisplays = false := by decide
-/-- `process_json_doc`: bind, evaluate, display, then 0/1 under `-b` for a boolean, else 0; an evaluation error
-prints `null` and is 0; malformed JSON prints nothing and is 3; exactly these two exception classes are handled -/
-theorem cli_doc_status :
-    Gen.Cli.docBindsEvaluatesDisplays = true ∧ Gen.Cli.docTrue = St.docTrue ∧ Gen.Cli.docFalse = St.docFalse ∧
-    Gen.Cli.docPlain = St.docPlain ∧ Gen.Cli.docEvalError = St.docEvalError ∧ Gen.Cli.docEvalErrorDisplaysNone = true ∧
-    Gen.Cli.docMalformed = St.docMalformed ∧ Gen.Cli.docMalformedDisplays = false ∧
-    ("CELEvalError" ∈ Gen.Cli.docHandlers ∧ "JSONDecodeError" ∈ Gen.Cli.docHandlers ∧ Gen.Cli.docHandlers.length = 2) := by decide
-/-- the NDJSON loop starts at 0 and combines with `max`; slurp hands the whole input to `process_json_doc` once;
-`main` returns the summary -/
-theorem cli_loop_shape :
-    Gen.Cli.ndjsonInit = St.ndjsonInit ∧ Gen.Cli.ndjsonCombine = "max" ∧ Gen.Cli.slurpIsOneDocument = true ∧
-    Gen.Cli.mainReturnsSummary = true := by decide
-/-- `CLI_ARG_TYPES` and the default package / variable rule -/
+namespace CliT
+
+/-- the abstract result classes of the scenarios, as model outcomes -/
+def outcomeOf : String → Outcome
+  | "evalError" => .evalError
+  | "celTrue" => .bool true
+  | "celFalse" => .bool false
+  | _ => .value "V"
+
+def lineOf (sc : String) : Line Unit := if sc = "malformed" then .malformed else .json ()
+
+/-- status code of the tables: 1000 = an exception leaves the function -/
+def code : PyM Nat → Nat
+  | .ok n => n
+  | .error _ => 1000
+
+/-- one display event per printed line: `display(None)` for the erroring document, `display(result_value)` otherwise -/
+def displays (sc : String) (out : List String) : List String :=
+  out.map (fun _ => if sc = "evalError" then "display:null" else "display:value")
+
+def docOutcomes : List String := ["malformed", "evalError", "celTrue", "celFalse", "otherT", "otherF"]
+def nullOutcomes : List String := ["evalError", "celTrue", "celFalse", "otherT", "otherF"]
+
+/-- `process_json_doc` of the model on each scenario: a well-formed document is bound, then evaluated, then displayed -/
+def expectedDoc : List (Bool × String × List String × Nat) :=
+  [false, true].flatMap fun b => docOutcomes.map fun sc =>
+    let r := (processJsonDoc (δ := Unit) (fun _ => outcomeOf sc) b [] "v" (lineOf sc)).2
+    (b, sc, (if sc = "malformed" then [] else ["bind", "eval"]) ++ displays sc r.out, code r.status)
+
+def optText : Option String → String
+  | none => "null"
+  | some s => s
+
+/-- the `(--json-document, --json-package)` cases as `get_options` leaves them -/
+def pdOf : String → Option String × Option String      -- (package, document)
+  | "doc" => (none, some "DOC")
+  | _ => (some "PKG", none)
+
+def envEvent (nullIn : Bool) (pd : String) : String :=
+  "env:package=" ++ optText (envPackage nullIn (pdOf pd).1 (pdOf pd).2)
+
+def inv (mode : Mode) (b compiles : Bool) (o : Outcome) (whole : Line Unit) : Invocation Unit :=
+  ⟨true, compiles, mode, b, "v", [], fun _ => o, whole, []⟩
+
+def modeOf : String → Mode
+  | "n" => .nullInput
+  | "s" => .slurp
+  | _ => .ndjson
+
+/-- a syntax error: the environment is built, nothing is evaluated or printed -/
+def expectedParseError : List (String × Bool × List String × Nat) :=
+  ["n", "s", "j"].flatMap fun m => [false, true].map fun b =>
+    let r := main (inv (modeOf m) b false (.value "V") .malformed)
+    (m, b, [envEvent (m = "n") "pkg"] ++ displays "" r.out, code r.status)
+
+/-- `--null-input`: build the environment, evaluate, display (or not), status -/
+def expectedNull : List (Bool × String × List String × Nat) :=
+  [false, true].flatMap fun b => nullOutcomes.map fun sc =>
+    let r := main (inv .nullInput b true (outcomeOf sc) .malformed)
+    (b, sc, [envEvent true "pkg", "eval"] ++ displays sc r.out, code r.status)
+
+/-- the call `process_json_doc(output_display, prgm, activation, options.document or options.package, <document>, options.boolean)`;
+`output_display` prints the JSON dump (CELJSONEncoder) of a value / of `None` -/
+def docEvent (pd : String) (document : String) (b : Bool) : String :=
+  "doc(display=display:value+display:null,prgm=prgm,var=" ++ varName (pdOf pd).1 (pdOf pd).2 ++ ",document=" ++ document ++
+    ",b=" ++ (if b then "True" else "False") ++ ")"
+
+/-- a one-document invocation whose document has status `d` (0: a value, 1: false under -b, 3: malformed; 2 does not occur) -/
+def slurpStatus (d : Nat) : Nat := d
+
+def expectedSlurp : List (Bool × String × Nat × List String × Nat) :=
+  [false, true].flatMap fun b => ["pkg", "doc"].flatMap fun pd => [0, 1, 2, 3].map fun d =>
+    (b, pd, d, [envEvent false pd, "read", docEvent pd "stdin.read()" b], slurpStatus d)
+
+/-- one step of the NDJSON loop: `summary = max(summary, process_json_doc(…))` — the `max s st` of `ndjsonLoop` -/
+def step (s d : Nat) : Nat := max s d
+
+def expectedNdjson : List (Bool × String × List String × String × Nat) :=
+  [false, true].flatMap fun b => ["pkg", "doc"].map fun pd => (b, pd, [envEvent false pd], "sys.stdin", St.ndjsonInit)
+
+def expectedNdjsonStep : List (Bool × String × Nat × Nat × List String × Nat) :=
+  [false, true].flatMap fun b => ["pkg", "doc"].flatMap fun pd =>
+    [0, 1, 2, 3].flatMap fun s => [0, 1, 2, 3].map fun d => (b, pd, s, d, [docEvent pd "line" b], step s d)
+
+end CliT
+
+/-- `process_json_doc`: malformed JSON prints nothing and is 3; otherwise bind, evaluate, display, then 0/1 under `-b` for a boolean,
+else 0; an evaluation error prints `null` and is 0 — for every result class, with and without `boolean_to_status` -/
+theorem cli_doc_table : Gen.Cli.docTable = CliT.expectedDoc := by decide
+
+/-- `except CELParseError: … return 1` in every mode, nothing printed -/
+theorem cli_parse_error_table : Gen.Cli.parseErrorTable = CliT.expectedParseError := by decide
+
+/-- the `--null-input` branch: 0/1 for a boolean under `-b`, 2 for a non-boolean or an evaluation error, 0 after printing without `-b`;
+`-b` prints nothing; the environment has no package -/
+theorem cli_null_table : Gen.Cli.nullTable = CliT.expectedNull := by decide
+
+/-- `--slurp`: `sys.stdin.read()` is handed to `process_json_doc` once, with the display function, the variable
+`document or package` and `-b`; its status is returned -/
+theorem cli_slurp_table : Gen.Cli.slurpTable = CliT.expectedSlurp := by decide
+
+/-- NDJSON: the documents are the lines of `sys.stdin`, the status is 0 before the loop, `main` returns the carried status -/
+theorem cli_ndjson_table : Gen.Cli.ndjsonTable = CliT.expectedNdjson := by decide
+/-- every step of the loop is `max(summary, process_json_doc(line))` with one call of `process_json_doc` on the current line
+(the loop carries nothing but the status, so the steps determine the fold for streams of every length) -/
+theorem cli_ndjson_step_table : Gen.Cli.ndjsonStepTable = CliT.expectedNdjsonStep := by decide
+
+/-- the step table is the step of the model's loop, and the slurp row is the model's slurp branch -/
+theorem cli_step_is_model {δ : Type} (prg : Prog δ) (b : Bool) (var : String) (act : Activation δ) (l : Line δ) (ls : List (Line δ))
+    (s st : Nat) (h : (processJsonDoc prg b act var l).2.status = .ok st) :
+    (ndjsonLoop prg b var act (l :: ls) s).status =
+      (ndjsonLoop prg b var (processJsonDoc prg b act var l).1 ls (CliT.step s st)).status := by
+  simp only [ndjsonLoop, h, CliT.step]
+theorem cli_slurp_is_model {δ : Type} (i : Invocation δ) (ha : i.argsOk = true) (hc : i.compiles = true) (hm : i.mode = .slurp) :
+    main i = (processJsonDoc i.prg i.boolean i.act i.var i.whole).2 := by
+  simp [main, ha, hc, hm]
+
+/-- `CLI_ARG_TYPES` and the default package -/
 theorem cli_arg_types : Gen.Cli.cliArgTypes = cliArgTypes := by decide
-theorem cli_default_package : Gen.Cli.defaultPackage = defaultPackage ∧ Gen.Cli.variableIsDocumentOrPackage = true := by decide
+theorem cli_default_package : Gen.Cli.defaultPackage = defaultPackage := by decide
 
 end Cel.Bridge
